@@ -230,10 +230,11 @@ type Func struct {
 	fields   []fieldInfo
 	abstract []*absParam
 
-	callees   []*Func
-	recursive bool
+	callees    []*Func
+	recursive  bool
 	hasGenLoop bool
-	fuelled   bool
+	fuelled    bool
+	trivialOk  bool // not fuelled and no side condition at all: F_ok is constant true
 
 	oracles     []*OracleSite
 	oracleAt    map[*ast.CallExpr][]*OracleSite
